@@ -356,7 +356,10 @@ def run(run):
                         last = h.body[-1] if h.body else None
                         ends_raise = isinstance(last, ast.Raise) or (isinstance(last, ast.Expr) and isinstance(last.value, ast.Call) and A.is_noreturn_call(last.value, m, pc))
                         flags = bool(_sets_flag(run, h, m, pc, V2))
-                        ends_raise = ends_raise or (bool(tr.finalbody) and isinstance(tr.finalbody[-1], ast.Raise))
+                        gm_ = A.cfg(m, pc)
+                        hn_ = [n for n in gm_.nodes if n.kind == "handler" and n.ast is h]
+                        # every way out of the handler ends in an exception (raise, a raising finally of this or an enclosing try, a no-return helper)
+                        ends_raise = ends_raise or (bool(hn_) and all(gm_.exit not in gm_.reachable(n, edge_ok=lambda a, b: not gm_.is_exc_edge(a, b)) for n in hn_))
                         # leaving an app / the menu makes the device drop off the bus on purpose: that disconnection is expected and followed by a reconnection
                         expected = all(call_name(c) in ("exit_app", "exit_menu") for c in raising) and all(isinstance(x, ast.Pass) for x in h.body)
                         run.check("R5", ends_raise or flags or expected, f"{m.qualname}: the handler over {sorted({call_name(c) for c in raising})} does not absorb a link failure",
